@@ -266,3 +266,16 @@ Proof. exact macd_stream_pow2. Qed.
 Theorem C14_macd_pow2_binary64 : forall k pf ps pg s xs xs', macd_new FOps pf ps pg = Ok s -> Forall2 (scaled k) xs xs' -> macd_run_ok k s xs ->
   Forall2 (Forall2 (scaled k)) (macd_outs FOps s xs) (macd_outs FOps s xs').
 Proof. exact macd_pow2_covariant. Qed.
+
+(* ... and for whole streams (scalar path) of AverageTrueRange and KeltnerChannel: |.| is exact and commutes with the scaling, the
+   multiplier is dimensionless *)
+From TA Require Import Proofs.FloatScaleKc.
+Theorem C14_atr_pow2_binary64 : forall k p a xs xs', atr_new FOps p = Ok a -> Forall2 (scaled k) xs xs' -> atr_run_ok k a xs ->
+  Forall2 (scaled k) (atr_outs FOps a xs) (atr_outs FOps a xs').
+Proof. exact atr_pow2_covariant. Qed.
+Theorem C14_kc_stream_pow2_binary64 : forall k xs xs' s s', rel_kc k s s' -> Forall2 (scaled k) xs xs' -> kc_run_ok k s xs ->
+  Forall2 (Forall2 (scaled k)) (kc_outs FOps s xs) (kc_outs FOps s' xs').
+Proof. exact kc_stream_pow2. Qed.
+Theorem C14_kc_pow2_binary64 : forall k p mu s xs xs', kc_new FOps p mu = Ok s -> Forall2 (scaled k) xs xs' -> kc_run_ok k s xs ->
+  Forall2 (Forall2 (scaled k)) (kc_outs FOps s xs) (kc_outs FOps s xs').
+Proof. exact kc_pow2_covariant. Qed.
